@@ -352,6 +352,11 @@ def partitioned_seq_cases(ctx):
         for prog in ('A0A3A4A6A9Z3TZ1TZ3TL3XZ0T', 'A3A4A6Z2Z0TZ3Z1T', 'U0U3U8U9Z3CZ2L0NTZ0C'):
             for j in ((0, 7, 30) if ctx.quick() else (0, 2, 4, 7, 12, 20, 30)):
                 cases.append((prog, ('>0' + '1b2c3d4e5f' * j) * 22, cf))
+    # pthread_create failing with EAGAIN for chosen helper threads (bit i of the mask = i-th creation of the run): the first helper of a level (nothing was done: the
+    # caller processes the whole level), a later one (the caller processes the leftovers), all of them
+    for mask in ('1', '2', '4', '5', '17', '255'):
+        for prog in ('A0A3A4A6A9Z3TZ1TZ3TL3XZ0T', 'U0U3U8U9Z3CZ2L0NTZ0C'):
+            cases.append((prog, ('>0' + '1b2c3d4e5f' * 7) * 22, ('2', '8', 'o', '3', mask)))
     return cases
 
 def replay(ctx, rp):
